@@ -40,6 +40,13 @@ def h_gate(t, part):
     elif conf == 'coroutine-predicate':
         async def auth(a):
             return decide(a)
+    elif conf == 'awaitable-predicate':
+        # an async predicate that is not a coroutine *function*: an object with `async def __call__` / a lambda that returns
+        # the coroutine of one
+        class Check:
+            async def __call__(self, a):
+                return decide(a)
+        auth = Check() if t.choice(2) else (lambda a, c=Check(): c(a))
     elif conf == 'partial-predicate':
         # a predicate as an application writes it: it raises TypeError / KeyError on payloads of an unexpected shape
         def auth(a):
@@ -280,8 +287,9 @@ def h_transparent(t, part):
 def gate_parts(tier):
     out = []
     for a in (False, True):
-        for conf in ('dict', 'list', 'predicate', 'coroutine-predicate', 'false', 'partial-predicate', 'partial-coroutine-predicate'):
-            if 'coroutine' in conf and not a:
+        for conf in ('dict', 'list', 'predicate', 'coroutine-predicate', 'false', 'partial-predicate', 'partial-coroutine-predicate',
+                     'awaitable-predicate'):
+            if ('coroutine' in conf or 'awaitable' in conf) and not a:
                 continue
             modes = [('development', False)] if tier == 'quick' else [('development', False), ('development', True),
                                                                        ('production', False), ('production', True)]
